@@ -24,7 +24,9 @@ Record rm_facts := mkRm {
   cl_stop_on_error : bool;    (* the loop returns on the first entry error *)
   cl_loop_patterns : bool;    (* the loop hands the patterns to removeFileWithContext *)
   nested_tested : nested_arg; (* removeFileWithContext: removeWithExclusionPatterns(ctx, Join(dir, f), f, patterns...) *)
-  nested_patterns : bool      (* ... with the patterns *)
+  nested_patterns : bool;     (* ... with the patterns *)
+  rm_path_cleaned : bool      (* dir = filepath.Clean(dir) after the empty-path test and before Lstat: the path is taken as a NAME, so that a
+                                 trailing separator or "/." cannot make Lstat / Remove act on the target of a link *)
 }.
 
 (* garbageCollect *)
@@ -38,12 +40,13 @@ Record priv_facts := mkPriv {
   pv_link_guard : bool;          (* Lstat guard: no ChangeOwnership through a symbolic link *)
   pv_chown_recursive : bool;     (* ChangeOwnershipRecursively instead of ChangeOwnership *)
   pv_force_passes_path : bool;   (* rm ... "--", path *)
-  pv_force_resolves_links : bool (* the forced removal resolves the path first (EvalSymlinks) *)
+  pv_force_resolves_links : bool;(* the forced removal resolves the path first (EvalSymlinks) *)
+  pv_path_cleaned : bool         (* a non-empty dir is cleaned first: same name for the ownership guard and the forced removal *)
 }.
 
-Definition expected_rm : rm_facts := mkRm true true TTested true true true true true TTested true true true NName true.
+Definition expected_rm : rm_facts := mkRm true true TTested true true true true true TTested true true true NName true true.
 Definition expected_gc : gc_facts := mkGc true true.
-Definition expected_priv : priv_facts := mkPriv true false true false.
+Definition expected_priv : priv_facts := mkPriv true false true false true.
 
 Definition excl_arg_eqb (a b : excl_arg) : bool :=
   match a, b with TTested, TTested | TDir, TDir | TNone, TNone => true | _, _ => false end.
@@ -56,17 +59,17 @@ Definition rm_ok (k : rm_facts) : bool :=
   Bool.eqb (rm_link_returns k) true && Bool.eqb (rm_clean_err_first k) true && Bool.eqb (rm_clean_patterns k) true &&
   Bool.eqb (rm_stop_nonempty k) true && Bool.eqb (rm_final_ctx k) true && excl_arg_eqb (rm_final_excl k) TTested &&
   Bool.eqb (cl_ls_filtered k) true && Bool.eqb (cl_stop_on_error k) true && Bool.eqb (cl_loop_patterns k) true &&
-  nested_arg_eqb (nested_tested k) NName && Bool.eqb (nested_patterns k) true.
+  nested_arg_eqb (nested_tested k) NName && Bool.eqb (nested_patterns k) true && Bool.eqb (rm_path_cleaned k) true.
 Definition gc_ok (k : gc_facts) : bool := Bool.eqb (gc_link_first k) true && Bool.eqb (gc_exists_first k) true.
 Definition priv_ok (k : priv_facts) : bool :=
   Bool.eqb (pv_link_guard k) true && Bool.eqb (pv_chown_recursive k) false &&
-  Bool.eqb (pv_force_passes_path k) true && Bool.eqb (pv_force_resolves_links k) false.
+  Bool.eqb (pv_force_passes_path k) true && Bool.eqb (pv_force_resolves_links k) false && Bool.eqb (pv_path_cleaned k) true.
 
 Lemma rm_ok_eq : forall k, rm_ok k = true -> k = expected_rm.
 Proof.
-  intros [a b c d e f g h i j k l m n]. unfold rm_ok. simpl. intro H.
+  intros [a b c d e f g h i j k l m n o]. unfold rm_ok. simpl. intro H.
   repeat (apply Bool.andb_true_iff in H; destruct H as [H ?]).
-  destruct a, b, d, e, f, g, h, j, k, l, n; try discriminate;
+  destruct a, b, d, e, f, g, h, j, k, l, n, o; try discriminate;
   destruct c; try discriminate; destruct i; try discriminate; destruct m; try discriminate; reflexivity.
 Qed.
 
@@ -74,4 +77,4 @@ Lemma gc_ok_eq : forall k, gc_ok k = true -> k = expected_gc.
 Proof. intros [[] []]; simpl; intro H; try discriminate; reflexivity. Qed.
 
 Lemma priv_ok_eq : forall k, priv_ok k = true -> k = expected_priv.
-Proof. intros [[] [] [] []]; simpl; intro H; try discriminate; reflexivity. Qed.
+Proof. intros [[] [] [] [] []]; simpl; intro H; try discriminate; reflexivity. Qed.
